@@ -153,6 +153,8 @@ def safe_callable_names(root: ast.Module) -> Collection[str]:
         Collection[str]: Names of all functions that have no side effect when called.
     """
     defined_names = {node.id for node in core.walk(root, ast.Name(ctx=ast.Store))}
+    # A parameter with the name of a function may be bound to anything
+    defined_names.update(node.arg for node in core.walk(root, ast.arg))
     function_defs = list(core.walk(root, (ast.FunctionDef, ast.AsyncFunctionDef)))
     safe_callables = set(constants.SAFE_CALLABLES)
     safe_callable_nodes = set()
